@@ -14,6 +14,7 @@ mod fuzz;
 mod history;
 mod integrity;
 mod keys;
+mod mem;
 mod repair;
 mod util;
 mod writer;
@@ -84,6 +85,7 @@ fn main() {
         }
         "c08-wit" => fuzz::wit_child(args.get(2).map(|s| s.as_str()).unwrap_or("")),
         "c20" => capi::c20_cases(&mut rng, &tier, &mut out),
+        "c15" => mem::c15_cases(&mut rng, &tier, &mut out),
         "c10" => history::c10_cases(&mut rng, &tier, &mut out),
         "c12" => history::c12_cases(&mut rng, &tier, &mut out),
         "c13" => history::c13_cases(&mut rng, &tier, &mut out),
